@@ -6,5 +6,6 @@ CONSTANTS
   Paths = {"a", "b"}
   DEV_GlobalPrecision = FALSE
   DEV_AccumulatingRoot = TRUE
+    DEV_NoTruncate = FALSE
 VIEW View
 PROPERTY PropOwnInputs
